@@ -89,7 +89,7 @@ pub mod phase {
     }
 
     /// ConstHz: the step is hz / rate, at concrete (frequency, rate) pairs (a symbolic f64 division on
-    /// both sides of the comparison costs many minutes: const_hz_step_any, thorough tier)
+    /// both sides of the comparison did not finish in 3000 s, so no symbolic-pair harness exists)
     #[kani::proof]
     #[kani::unwind(8)]
     pub fn const_hz_step() {
@@ -101,20 +101,6 @@ pub mod phase {
             assert!(s == hz / rate, "step == frequency / rate");
             assert!(c.step() == s && c.next() == s, "constant");
         }
-        kani::cover!(true, "end");
-    }
-
-    #[cfg(feature = "thorough")]
-    #[kani::proof]
-    pub fn const_hz_step_any() {
-        let rate: f64 = kani::any();
-        let hz: f64 = kani::any();
-        kani::assume(rate.is_finite() && rate > 0.0 && hz.is_finite() && hz >= 0.0);
-        let mut c = signal::rate(rate).const_hz(hz);
-        let s = c.step();
-        assert!(s == hz / rate, "step == frequency / rate");
-        assert!(s >= 0.0 && !s.is_nan());
-        kani::cover!(hz > rate, "frequency above the rate");
         kani::cover!(true, "end");
     }
 
